@@ -50,8 +50,8 @@ def core_atom(it, tt: VTT, k: P) -> VTensor:
     return VTensor(net.atom_tensor(sp, nm, sizes, tags=tags), "dtype:" + tt.name)
 
 
-def make_tt(it, name: str, is_ttm: bool) -> VTT:
-    d = P.atom(f"d_{name}")
+def make_tt(it, name: str, is_ttm: bool, d=None) -> VTT:
+    d = P.atom(f"d_{name}") if d is None else P.const(d)
     tt = VTT(name, is_ttm, d, None, True)
     tt.cores = VSeq(f"cores_{name}", d, lambda k, tt=tt: core_atom(it, tt, k))
     return tt
@@ -93,6 +93,10 @@ def result_seq(it, tt: VTT, which: str):
 def attribute(it, base, name, fr, node):
     if isinstance(base, VTT):
         nm = name.lstrip("_") if name.startswith("__") and not name.endswith("__") else name
+        if not base.operand and name in base.extra:
+            return base.extra[name]
+        if not base.operand and nm in base.extra:
+            return base.extra[nm]
         if nm == "cores":
             return base.cores
         if nm in ("N", "R"):
@@ -109,9 +113,19 @@ def attribute(it, base, name, fr, node):
             return VOpaque("tt.shape")
         if nm in base.extra:
             return base.extra[nm]
+        if name in base.extra:
+            return base.extra[name]
         return VBound(base, name)
     if isinstance(base, VTensor):
         if name == "shape":
+            if base.counts is not None:
+                tot = ZERO
+                for c in base.counts:
+                    tot = tot + c
+                sh = VSeq("shape", it.facts.norm(tot), lambda k: VOpaque("bundled-shape-entry"))
+                sh.whole = False
+                sh.tail = getattr(base, "tail", None)
+                return sh
             return VTuple(tuple(VInt(s) for s in base.block().shape()))
         if name == "dtype":
             return VOpaque(base.dtype if base.dtype.startswith("dtype") else "dtype:" + base.dtype)
@@ -157,6 +171,9 @@ def subscript(it, base, idx, fr, node):
         if isinstance(idx, VSlice):
             if idx.step is not None:
                 raise Unmodelled("stepped slice of a symbolic sequence")
+            tail = getattr(base, "tail", None)
+            if tail is not None and idx.hi is None and isinstance(idx.lo, VInt) and it.facts.eq(-idx.lo.p, tail[0]):
+                return tail[1]
             lo = idx.lo.p if isinstance(idx.lo, VInt) else ZERO
             hi = idx.hi.p if isinstance(idx.hi, VInt) else base.length
             lc = it.facts.norm(P.of(lo)).const_value()
@@ -286,10 +303,9 @@ def tensor_index(it, base: VTensor, idx, node):
         elif isinstance(x, VTensor):
             # integer index tensor (gather): new axis shares the index tensor's (single) axis
             idt = x.dense()
-            if idt.ndim() != 1 or len(idt.terms) != 1 or len(idt.terms[0].atoms) != 1:
+            if idt.ndim() != 1 or len(idt.terms) != 1:
                 raise Unmodelled("advanced indexing with a non-vector index")
-            a = idt.terms[0].atoms[0]
-            cur = net.select_axis(sp, cur, ax, "gather:" + a.name, idt.axis_size(0))
+            cur = net.select_axis(sp, cur, ax, gather_name(sp, idt), idt.axis_size(0))
             # identify the new axis with the index vector's axis (batch wire)
             for term in cur.terms:
                 sp.unify(term.out[ax][0], idt.terms[0].out[0][0], "gather index")
@@ -300,6 +316,11 @@ def tensor_index(it, base: VTensor, idx, node):
         else:
             raise Unmodelled(f"tensor index of type {type(x).__name__}")
     return VTensor(cur, base.dtype)
+
+
+def gather_name(sp, idx: Dense) -> str:
+    """name of the selection matrix defined by an integer index vector (its canonical network text)"""
+    return "gather:" + net._canon_term(sp, idx.terms[0]).replace(" ", "")
 
 
 def setitem(it, base: VTensor, sl_node, v, fr):
@@ -471,6 +492,47 @@ def _int_list(it, v):
             raise Unmodelled("symbolic axis number")
         return [int(c)]
     raise Unmodelled("axis list")
+
+
+def _axis_list(it, t: VTensor, v):
+    """axis numbers of a tensor; symbolic numbers are resolved through the bundle counts"""
+    items = v.items if isinstance(v, (VList, VTuple)) else [v]
+    out = []
+    for x in items:
+        if not isinstance(x, VInt):
+            raise Unmodelled("non-integer axis")
+        c = it.facts.norm(x.p).const_value()
+        if t.counts is None:
+            if c is None:
+                raise Unmodelled("symbolic axis number on a tensor without bundle layout")
+            out.append(int(c))
+            continue
+        n = len(t.counts)
+        if c is not None and c < 0:
+            # negative numbers count real axes from the end
+            off = ZERO
+            found = None
+            for j in range(n - 1, -1, -1):
+                off = off + t.counts[j]
+                if it.facts.eq(off, -c) and it.facts.eq(t.counts[j], ONE):
+                    found = j
+                    break
+            if found is None:
+                raise Unmodelled(f"axis {c} does not address a single axis of the bundled layout")
+            out.append(found)
+            continue
+        off = ZERO
+        found = None
+        for j in range(n):
+            if it.facts.eq(off, x.p) and it.facts.eq(t.counts[j], ONE):
+                found = j
+                break
+            off = off + t.counts[j]
+        if found is None:
+            raise TypeViolation(f"axis number {it.facts.norm(x.p)!r} does not address a single axis of the layout "
+                                f"{[repr(it.facts.norm(cc)) for cc in t.counts]} (batch axes / remaining modes / produced modes / bond)")
+        out.append(found)
+    return out
 
 
 def _size_list(it, v):
@@ -660,7 +722,15 @@ def builtin(it, name, args, kwargs, fr, node):
             return VList([]) if name == "list" else VTuple(())
         v = args[0]
         if isinstance(v, VIndexSeq):
-            return v
+            out = []
+            for n, a, b in v.parts:
+                c = it.facts.norm(n).const_value()
+                if c is None:
+                    return v
+                out += [VInt(P.const(a * k + b)) for k in range(int(c))]
+            return VList(out)
+        if isinstance(v, VSeq) and v.name.startswith("cores_"):
+            return seq_to_list(it, v)
         if isinstance(v, (VSeq, VSymList)):
             return v
         items = it.iter_concrete(v)
@@ -775,8 +845,15 @@ def torch_function(it, dotted, last, args, kwargs, node):
         dims = kwargs.get("dims", args[2] if len(args) > 2 else None)
         if not isinstance(dims, (VTuple, VList)) or len(dims.items) != 2:
             raise Unmodelled("tensordot dims")
-        da, db = _int_list(it, dims.items[0]), _int_list(it, dims.items[1])
-        return VTensor(net.tensordot(sp, args[0].dense(), args[1].dense(), da, db), args[0].dtype)
+        da, db = _axis_list(it, args[0], dims.items[0]), _axis_list(it, args[1], dims.items[1])
+        res = VTensor(net.tensordot(sp, args[0].dense(), args[1].dense(), da, db), args[0].dtype)
+        if args[0].counts is not None or args[1].counts is not None:
+            ca = args[0].counts or [ONE] * args[0].dense().ndim()
+            cb = args[1].counts or [ONE] * args[1].dense().ndim()
+            na, nb = len(ca), len(cb)
+            da_, db_ = [x % na for x in da], [x % nb for x in db]
+            res.counts = [c for i, c in enumerate(ca) if i not in da_] + [c for j, c in enumerate(cb) if j not in db_]
+        return res
     if last == "reshape":
         return VTensor(net.reshape(sp, args[0].dense(), _size_list(it, args[1])), args[0].dtype)
     if last == "permute":
@@ -793,12 +870,18 @@ def torch_function(it, dotted, last, args, kwargs, node):
         d = args[0].dense()
         k = _int_list(it, args[1])[0]
         k = k if k >= 0 else d.ndim() + 1 + k
-        return VTensor(net.insert_axis(d, k), args[0].dtype)
+        r = VTensor(net.insert_axis(d, k), args[0].dtype)
+        if args[0].counts is not None:
+            r.counts = list(args[0].counts[:k]) + [ONE] + list(args[0].counts[k:])
+        return r
     if last == "squeeze":
         d = args[0].dense()
         if len(args) > 1 or "dim" in kwargs:
             k = _int_list(it, args[1] if len(args) > 1 else kwargs["dim"])[0] % d.ndim()
-            return VTensor(net.drop_axis(sp, d, k), args[0].dtype)
+            r = VTensor(net.drop_axis(sp, d, k), args[0].dtype)
+            if args[0].counts is not None:
+                r.counts = [c for j, c in enumerate(args[0].counts) if j != k]
+            return r
         cur = d
         k = 0
         while k < cur.ndim():
